@@ -6,6 +6,7 @@ on point detectors and on grids.  The oracle is the symmetry itself
 (metamorphic): transformed configuration vs. base configuration.
 """
 import math
+import warnings
 
 import numpy as np
 
@@ -102,6 +103,12 @@ def cases(tier, seed):
                 out.append({"id": "rot:%s:%g" % (st, ang), "kind": "rot",
                             "st": st, "ang": ang})
         out.append({"id": "mirror:%s" % st, "kind": "mirror", "st": st})
+    # detector points far from the axis (a frame 25 um across) under the
+    # numerical lens theory: with its default pupil quadrature, and with a
+    # quadrature fine enough for that radius
+    for q in ("default", "refined"):
+        out.append({"id": "rot:lens-mie-far-rho:%s" % q, "kind": "lensfar",
+                    "quad": q, "_timeout": 900})
     return out
 
 
@@ -318,10 +325,41 @@ def _run_mirror(case, ck):
     return digest(*fps)
 
 
+def _run_lensfar(case, ck):
+    from holopy.core.metadata import detector_points
+    from holopy.scattering import calc_holo, Sphere, Mie, MieLens
+    from holopy.scattering.theory import Lens
+    rho = np.array([2.0, 7.0, 10.0, 12.0, 14.0])
+    a = 0.3
+    sph = Sphere(n=1.59, r=0.5, center=(0.0, 0.0, 5.0))
+    n = 100 if case["quad"] == "default" else 400
+    fps = []
+    for name, th in (("Lens(1.0, Mie)", Lens(1.0, Mie(False, False), n, n)),
+                     ("MieLens(1.0)", MieLens(1.0))):
+        hs = []
+        for ang, pol in ((0.2, (1.0, 0.0)),
+                         (0.2 + a, (math.cos(a), math.sin(a)))):
+            det = detector_points(x=rho * math.cos(ang),
+                                  y=rho * math.sin(ang), z=0.0)
+            with warnings.catch_warnings():
+                warnings.simplefilter("ignore")
+                hs.append(calc_holo(det, sph, H.NMED, H.WL, pol,
+                                    theory=th).values.ravel())
+            ck.trans += 1
+        e = float(np.abs(hs[1] - hs[0]).max())
+        ck.metric("rotation-far-rho", e)
+        ck.true("rotation-holo", e <= 1e-6, "%s (%d-node quadrature): "
+                "rotating sphere, polarization and detector points (k rho up "
+                "to %.0f) by %g rad changes the hologram by %.2e" %
+                (name, n, H.K * rho.max(), a, e))
+        fps.append(fp_values(hs[0]))
+    return digest(*fps)
+
+
 def run_case(case):
     ck = Checker()
     try:
-        fp = {"shift": _run_shift, "rot": _run_rot,
+        fp = {"shift": _run_shift, "rot": _run_rot, "lensfar": _run_lensfar,
               "mirror": _run_mirror}[case["kind"]](case, ck)
     except Exception as e:
         if H.is_refusal(e):
